@@ -82,9 +82,18 @@ impl HttpClient for ReqwestClient {
             )));
         }
 
-        response
-            .text()
-            .map_err(|e| SlocGuardError::Config(format!("Failed to read response from {url}: {e}")))
+        // Take the body as the bytes that were served. `Response::text` decodes lossily (every
+        // invalid sequence becomes U+FFFD, other charsets are transcoded), so `extends_sha256`
+        // would be compared with the hash of a text the server never sent, and that text would
+        // be cached. A body that is not UTF-8 is an error; a valid one is used byte for byte.
+        let body = response.bytes().map_err(|e| {
+            SlocGuardError::Config(format!("Failed to read response from {url}: {e}"))
+        })?;
+        String::from_utf8(body.to_vec()).map_err(|_| {
+            SlocGuardError::Config(format!(
+                "Failed to read response from {url}: the body is not valid UTF-8"
+            ))
+        })
     }
 }
 
